@@ -3,12 +3,14 @@
 (* (lib/util/src/get_line.c, split_line.c, bin/gensquashfs/src/fstree_from_file.c handle_line) as the     *)
 (* parser of the same line format.  Property C16: Parse(Print(entry)) = entry for every entry whose       *)
 (* strings contain no NUL, '/', newline.                                                                   *)
-(* Characters are classes:  "p" plain, "s" space, "t" tab, "q" double quote, "b" backslash, "h" '#'.       *)
+(* Characters are classes:  "p" plain, "s" space, "t" tab, "q" double quote, "b" backslash, "h" '#',      *)
+(* "w" other white space (\r, \v, \f: no token separator, but get_line trims it at both ends of a line).   *)
 (* An entry is [kind, name, extra]: extra = symlink target, or file location when --unpack-root is used.   *)
 EXTENDS Naturals, Sequences, FiniteSets, TLC
 CONSTANTS MaxName, MaxExtra, Chars,
           QuoteOnTabAndBackslash,   \* printer: also quote fields with tab / backslash and escape backslashes
-          QuoteExtra                \* printer: targets and locations go through the same quoting as names
+          QuoteExtra,               \* printer: targets and locations go through the same quoting as names
+          QuoteOnOtherSpace         \* printer: also quote fields that contain other white space (the last field of a line would lose it)
 Strs(n) == UNION {[1..k -> Chars] : k \in 1..n}
 Has(x, c) == \E i \in 1..Len(x) : x[i] = c
 IsSep(c) == c \in {"s", "t"}
@@ -19,7 +21,7 @@ Escape(x, set) == IF x = <<>> THEN <<>>
                   ELSE IF Head(x) \in set THEN <<"b", Head(x)>> \o Escape(Tail(x), set) ELSE <<Head(x)>> \o Escape(Tail(x), set)
 PrintField(x) ==
   IF QuoteOnTabAndBackslash
-  THEN (IF Has(x, "s") \/ Has(x, "t") \/ Has(x, "q") \/ Has(x, "b") THEN <<"q">> \o Escape(x, {"q", "b"}) \o <<"q">> ELSE x)
+  THEN (IF Has(x, "s") \/ Has(x, "t") \/ Has(x, "q") \/ Has(x, "b") \/ (QuoteOnOtherSpace /\ Has(x, "w")) THEN <<"q">> \o Escape(x, {"q", "b"}) \o <<"q">> ELSE x)
   ELSE (IF Has(x, "s") \/ Has(x, "q") THEN <<"q">> \o Escape(x, {"q"}) \o <<"q">> ELSE x)
 PrintExtra(x) == IF QuoteExtra THEN PrintField(x) ELSE x
 Perm == <<"p">>                                  \* stands for " 0644 0 0": three plain tokens
@@ -46,9 +48,13 @@ Tokens(x, acc) ==
   ELSE LET r == IF Head(y) = "q" THEN Quoted(Tail(y), <<>>) ELSE Plain(y, <<>>) IN
        IF r = Err THEN Err ELSE Tokens(r[3], Append(acc, r[2]))
 
+(* get_line: white space of any kind is trimmed at both ends of the line before it is split *)
+RECURSIVE RTrim(_)
+RTrim(x) == IF x # <<>> /\ x[Len(x)] \in {"s", "t", "w"} THEN RTrim(SubSeq(x, 1, Len(x) - 1)) ELSE x
+
 (* ---------------- parser: handle_line (arity and meaning of the tokens) ---------------- *)
 Parse(line, kind) ==
-  LET t == Tokens(line, <<>>) IN
+  LET t == Tokens(RTrim(line), <<>>) IN
   IF t = Err THEN Err
   ELSE LET a == t[2] IN
        IF Len(a) < 5 THEN Err
